@@ -18,7 +18,7 @@ RULE = ('core: every element-content class x every schema child: [read unset, se
         'constructor keyword vs dot assignment (same stored dictionary, same text, same exception class for an invalid '
         'value), dot read of set / unset / undeclared names, and dot RE-assignment over a held value (the equal value of the other '
         'number kind, and the same value again) against a constructor keyword on a fresh element. halo: seeded mixed sequences (<=10 shortcut operations over '
-        'the child alphabet) replayed on both surfaces. non-trivial = step that changed or read a child/attribute; '
+        'the child alphabet) replayed on both surfaces; the core scripts also on an unchecked parent (the children either surface creates must carry the same checking flag). non-trivial = step that changed or read a child/attribute; '
         'distinct by construction (class, child/attribute, step) or distinct sequence')
 ASSUMPTIONS = ['the explicit translation of e.xml_x = v is the one the README documents: replace_child / add_child for an '
                'element, value_ assignment or add_child(X(v)) for a value, remove for None (first child of that class in '
@@ -96,7 +96,8 @@ def apply(surface, e, op, lib, fresh):
 
 def observe(e, lib):
     def vals(cs):
-        return [(c.name, str(c.value_)) for c in cs]
+        # name, value and the child's own checking flag (a child the shortcut creates is an ordinary, checked element)
+        return [(c.name, str(c.value_), bool(c.xsd_check)) for c in cs]
     o = {'ordered': vals(e.get_children(True)), 'insertion': vals(e.get_children(False))}
     return o
 
@@ -106,11 +107,11 @@ def final(e, lib):
     return v[0] if v[0] != 'ok' else v[1]
 
 
-def run_script(cls, script, lib):
+def run_script(cls, script, lib, check=True):
     """run on both surfaces; returns (first differing step, what) or None"""
     out = {}
     for surface in ('shortcut', 'explicit'):
-        e = lib.make(cls, check=True, with_required=True)
+        e = lib.make(cls, check=check, with_required=True)
         trace = []
         for op in script:
             r = apply(surface, e, op, lib, lambda s: lib.make(lib.child_cls(s)))
@@ -159,7 +160,8 @@ def run_shard(shard, tier, seed):
                 has_val = lib.default_value(ccls) is not None and not lib.has_required_attrs(ccls)
                 script = [('read', s), ('el', s), ('read', s)] + ([('val', s), ('read', s), ('badval', s), ('read', s)]
                                                                  if has_val else []) + \
-                         [('el', s), ('read', s), ('none', s), ('read', s)] + ([('badval', s), ('read', s)] if has_val else [])
+                         [('el', s), ('read', s), ('none', s), ('read', s)] + \
+                         ([('badval', s), ('read', s), ('val', s), ('read', s)] if has_val else [])   # a value CREATES the child here
                 evals += 1
                 nontriv += 1
                 d = run_script(cls, script, lib)
@@ -169,6 +171,16 @@ def run_shard(shard, tier, seed):
                     v('surfaces-differ:' + d[1], cn, t, {'script': script, 'step': d[0], 'shortcut': str(d[2])[:200],
                                                          'explicit': str(d[3])[:200]},
                       {'op': step[0], 'layer': 'core'})
+                else:
+                    # the same script on an UNCHECKED parent (nothing is refused there; the two surfaces must still agree,
+                    # including the checking flag of the children they create)
+                    d = run_script(cls, script, lib, check=False)
+                    c['child_scripts_unchecked_parent'] += 1
+                    if d:
+                        step = script[d[0]] if d[0] < len(script) else ('final', s)
+                        v('surfaces-differ:' + d[1], cn, t, {'script': script, 'step': d[0], 'shortcut': str(d[2])[:200],
+                                                             'explicit': str(d[3])[:200], 'parent': 'unchecked'},
+                          {'op': step[0], 'layer': 'core', 'parent': 'unchecked'})
                 # the child that the shortcut returns is the one serialisation shows; unset -> None, not an error
                 e = lib.make(cls, check=True, with_required=True)
                 r = lib.call(getattr, e, 'xml_' + s.replace('-', '_'))
